@@ -272,7 +272,7 @@ def scenarios(ctx):
         if dim == 2 and i % 3 == 0:
             # per-parameter noise with a ZERO variance before / after a non-zero one, on clearly different bounds per dimension
             noise = [[0, 0.5], [0.5, 0]][(i // 3) % 2]
-            bounds = [[0.0, 1.0], [-3.0, 3.0]] if (i // 3) % 2 == 0 else [[-3.0, 3.0], [0.0, 1.0]]
+            bounds = [[-3.0, 3.0], [0.0, 1.0]] if (i // 6) % 2 == 0 else [[0.0, 1.0], [-3.0, 3.0]]
             prior = [[b[0] - 1.0, b[1] + 1.0] if wide else [b[0] + 0.25, b[1] - 0.25] for b in bounds]
         base = dict(kind="bo", dim=dim, bounds=bounds, prior=prior, bs=bs, bpa=rnd.choice([1, 2]), init=init, n_evidence=n_ev,
                     upd=rnd.choice([1, 2, 10]), noise=noise, seed=rnd.randint(0, 10 ** 6), acq=rnd.choice(["lcbsc", "lcbsc", "uniform"]))
